@@ -441,12 +441,18 @@ def gen_store(rng, style):
                     body = '\n'.join(f'{rng.choice(WORDS)} {ref} {lang} v{v} {rng.randrange(1000)}' for _ in range(lines))
                     width = rng.choice([None] + WIDTHS) if rng.random() < 0.9 else None
                     texts.append(pm_types.LocalizedText(body, lang=lang, ref=ref, version=v, text_width=width))
+    if texts and rng.random() < 0.5:
+        # LocalizedText.Lang is optional: texts WITHOUT a language next to the translated ones (same refs / versions, own wording)
+        for t in rng.sample(texts, min(len(texts), rng.randrange(1, 5))):
+            lines = rng.choice([1, 2, 3])
+            body = '\n'.join(f'{rng.choice(WORDS)} {t.Ref} nolang v{t.Version} {rng.randrange(1000)}' for _ in range(lines))
+            texts.append(pm_types.LocalizedText(body, lang=None, ref=t.Ref, version=t.Version, text_width=rng.choice([None] + WIDTHS)))
     return texts
 
 
 def gen_request(rng, pattern, store):
     refs = sorted({t.Ref for t in store}) or ['r1']
-    langs = sorted({t.Lang for t in store}) or ['en']
+    langs = sorted({t.Lang for t in store if t.Lang is not None}) or ['en']
     versions = sorted({t.Version for t in store if t.Version is not None}) or [1]
     req = {}
     if pattern & 1:
@@ -493,7 +499,10 @@ def judge_texts(ctx, store, req, returned, detail):
                 bad('version_constraint', 'returned text has a Version different from the requested one', t)
         if 'langs' in req:
             ctx.count('constraint.lang.judged')
-            if lang not in req['langs'] and str(lang).lower() not in [x.lower() for x in req['langs']]:  # (tags are case-insensitive)
+            if lang is None:
+                ctx.count('constraint.lang.judged_text_without_lang')
+            # a Lang constraint is only satisfied by a text that HAS one of the requested languages (tags are case-insensitive)
+            if lang is None or (lang not in req['langs'] and lang.lower() not in [x.lower() for x in req['langs']]):
                 bad('lang_constraint', 'returned text has a Lang that was not requested', t)
         if 'text_widths' in req:
             ctx.count('constraint.width.judged')
@@ -503,8 +512,12 @@ def judge_texts(ctx, store, req, returned, detail):
             ctx.count('constraint.lines.judged')
             if min_lines(text) > max(req['number_of_lines']):
                 bad('lines_constraint', 'returned text has more lines than every requested NumberOfLines', t)
+    if any(k[1] is None for k in got):
+        ctx.count('getlocalizedtext.texts_without_lang_returned', sum(n for k, n in got.items() if k[1] is None))
     if not req:
-        # all texts of the latest version.  required: Version == highest version of the store (latest under every reading);
+        if any(k[1] is None and k[3] == max([x[3] for x in stored if x[3] is not None], default=None) for k in stored):
+            ctx.count('getlocalizedtext.unconstrained.latest_has_text_without_lang')
+        # all texts of the latest version (incl. the texts without Lang).  required: Version == highest version of the store (latest under every reading);
         # allowed in addition: texts that are the latest of their (Ref, Lang) or carry no Version; forbidden: superseded texts.
         ctx.count('getlocalizedtext.unconstrained')
         versions = [k[3] for k in stored if k[3] is not None]
@@ -537,7 +550,9 @@ def judge_languages(ctx, client, store, detail, phase):
         return
     ctx.count('getsupportedlanguages.responses')
     ctx.count(f'getsupportedlanguages.responses.{phase}')
-    want = {t.Lang for t in store}
+    want = {t.Lang for t in store if t.Lang is not None}   # the Lang values of the stored texts that have one
+    if any(t.Lang is None for t in store):
+        ctx.count('getsupportedlanguages.responses.store_has_texts_without_lang')
     if set(langs) != want:
         ctx.witness('getsupportedlanguages.differs', 'GetSupportedLanguages does not list exactly the stored languages',
                     {**detail, 'phase': phase, 'listed': sorted(langs), 'stored': sorted(want)})
@@ -701,7 +716,8 @@ def run(ctx: core.Ctx):
         '(no element on the wire) is no constraint, language tags are compared case-insensitively',
         'unconstrained GetLocalizedText: required = texts whose Version is the highest of the store, tolerated = latest per (Ref, Lang) and '
         'unversioned texts, forbidden = superseded texts (both readings of "latest version" accepted)',
-        'stored texts carry Ref and Lang (texts without Lang are not generated); the library has no API to remove a text - removal = '
+        'stored texts carry Ref; Lang is optional (texts without Lang are stored too: they satisfy no Lang constraint, belong to "all texts of the '
+        'latest version" and contribute no language to GetSupportedLanguages); the library has no API to remove a text - removal = '
         'replacing the storage object of the service',
     ]
     if ctx.quick:
@@ -753,6 +769,9 @@ def run(ctx: core.Ctx):
         ctx.floor(f'store.filled_by.{how}', 2)
     for style in c20_more.BOUNDARY_STYLES:
         ctx.floor(f'store.{style}', 1)
+    ctx.floor('getsupportedlanguages.responses.store_has_texts_without_lang', 10)
+    ctx.floor('getlocalizedtext.texts_without_lang_returned', 50)
+    ctx.floor('getlocalizedtext.unconstrained.latest_has_text_without_lang', 5)
 
 
 def dispatch(ctx: core.Ctx, job):
